@@ -14,7 +14,7 @@ import (
 
 var c18Kinds = []string{"encdec", "encdec.unknown", "hash", "hash.unknown", "first", "last", "elementat", "elementat.oob", "elementat.negative", "array.null", "array.empty",
 	"unwind", "array", "concat", "concat.null", "if", "lower", "upper", "changetype.string", "changetype.double", "changetype.integer", "changetype.array", "changetype.unknown",
-	"daterange", "daterange.null", "constant", "constant.unknown", "constant.nested", "arity"}
+	"daterange", "daterange.null", "constant", "constant.unknown", "constant.nested", "constant.twice", "arity"}
 
 func init() {
 	fw.Register(&fw.Prop{
@@ -111,6 +111,7 @@ func c18Run(c *fw.Case) {
 	var opts []genql.QueryOption
 	extraCheck := func(got any) string { return "" }
 	nestedSQL := ""
+	rawDoc := false
 	str := func(s string) string { return gen.SQLString(s, 0) }
 	switch kind {
 	case "encdec":
@@ -195,7 +196,17 @@ func c18Run(c *fw.Case) {
 		want = nil
 	case "unwind":
 		a := c18Array(c, 2)
-		call = "UNWIND(" + arg(a) + ")"
+		// arrays as a decoder leaves them: with spare capacity behind their elements
+		for i, x := range a {
+			if s, ok := x.([]any); ok {
+				roomy := make([]any, len(s), len(s)+1+c.Intn(4))
+				copy(roomy, s)
+				a[i] = roomy
+			}
+		}
+		rawDoc = true
+		name := arg(a)
+		call = "UNWIND(" + name + ")"
 		out := []any{}
 		for _, x := range a {
 			if s, ok := x.([]any); ok {
@@ -205,6 +216,23 @@ func c18Run(c *fw.Case) {
 			}
 		}
 		want = out
+		switch c.Intn(3) {
+		case 0:
+			// several calls over the same array in one query, and the array itself
+			call = "ARRAY(UNWIND(" + name + "), UNWIND(" + name + "), " + name + ", UNWIND(" + name + "))"
+			want = []any{out, out, val.Copy(a), out}
+		case 1:
+			// calls that share their first group and go on differently
+			n := c.Intn(4)
+			base := make([]any, n, n+1+c.Intn(4))
+			for i := range base {
+				base[i] = float64(i)
+			}
+			row["base"] = base
+			call = "ARRAY(UNWIND(ARRAY(base, ARRAY('p'))), UNWIND(ARRAY(base, ARRAY('q', 'z'))), base, UNWIND(ARRAY(base, ARRAY('p'))))"
+			withP := append(append([]any{}, base...), "p")
+			want = []any{withP, append(append([]any{}, base...), "q", "z"), val.Copy(base), withP}
+		}
 	case "array":
 		n := c.Intn(5)
 		vals := make([]any, n)
@@ -358,6 +386,25 @@ func c18Run(c *fw.Case) {
 			}
 			return ""
 		}
+	case "constant.twice":
+		// a map of defaults shared between queries, and one query that is given
+		// the defaults and then its own constants: the other queries (and the
+		// caller's map) still hold the defaults
+		defaults := map[string]any{"cur": "USD", "k1": c18Scalar(c, true)}
+		own := map[string]any{"cur": "EUR"}
+		both := Run(map[string]any{"t": []any{map[string]any{"x": 1.0}}}, "SELECT CONSTANT('cur') AS v FROM t", genql.WithConstants(defaults), genql.WithConstants(own))
+		if !both.OK() || len(both.Rows) != 1 || !val.Equal(both.Rows[0].(map[string]any)["v"], "EUR") {
+			c.Feature(kind)
+			c.Violate("value", fmt.Sprintf("a query given WithConstants(defaults) and then WithConstants(own) returned %s for a constant of its own map", short(fmt.Sprint(both.Describe()), 120)), map[string]any{"observed": both.Describe()})
+			return
+		}
+		if !val.Equal(defaults["cur"], "USD") || len(defaults) != 2 {
+			c.Feature(kind)
+			c.Violate("value", fmt.Sprintf("the caller's defaults map was rewritten: %s", short(val.Canon(defaults), 120)), map[string]any{"defaults": defaults})
+			return
+		}
+		opts = append(opts, genql.WithConstants(defaults))
+		call, want = "CONSTANT('cur')", "USD"
 	case "constant.nested":
 		// the configured constants reach every nested query, with whatever other options
 		consts := map[string]any{"k1": c18Scalar(c, true), "k2": float64(c.Intn(9))}
@@ -426,7 +473,11 @@ func c18Run(c *fw.Case) {
 	if nestedSQL != "" {
 		sql = nestedSQL
 	}
-	o := Run(val.CopyMap(doc), sql, opts...)
+	runDoc := val.CopyMap(doc)
+	if rawDoc {
+		runDoc = doc // keeps the capacities of its arrays
+	}
+	o := Run(runDoc, sql, opts...)
 	c.Feature(kind)
 	c.Sample(map[string]any{"sql": sql, "row": val.Show(row), "expected": val.Show(want), "expected_error": wantErr})
 	det := map[string]any{"sql": sql, "doc": val.Show(doc), "expected": val.Show(want), "expected_error": wantErr, "observed": o.Describe()}
